@@ -63,8 +63,13 @@ func cmdFsCases(args []string) error {
 			return
 		}
 		// every second case runs with the model's names instantiated as string-prefix-related names
-		if n := atomic.AddInt64(&caseNo, 1); n%2 == 0 {
+		n := atomic.AddInt64(&caseNo, 1)
+		if n%2 == 0 {
 			c = c.Renamed(fsx.PrefixNames)
+		}
+		// every fifth case spells its paths with a long neutral prefix
+		if n%5 == 0 {
+			c = c.Inflated()
 		}
 		for _, k := range kinds {
 			if *skipPre && !c.Assumed {
